@@ -117,6 +117,10 @@ def cases(tier, rng, run):
         sc = rng.choice(SCOPES)
         if feasible(t, sc):
             out.append(Case(f"SYM\t{t}\t{sc}", "rand"))
+    # axis names that merely begin / end with or contain the name of a function are names
+    for t, sc in (("add(max_len,1)", "max_len:3"), ("mul(minibatch,min(max_len,4))", "minibatch:2;max_len:7"), ("isqrt(isqrt_in)", "isqrt_in:17"), ("sub(imax,imin)", "imax:9;imin:2"),
+                  ("max(min_size,div(maximum,2))", "min_size:3;maximum:10"), ("grp(minutes)", "minutes:5"), ("exp(min2,2)", "min2:3")):
+        out.append(Case(f"SYM\t{t}\t{sc}", "fn-prefix-names"))
     # arithmetic on constant / anonymous axes must be refused
     for bad in ["const(k,3)", "anon(batch)", "anon()"]:
         for o in ["add", "sub", "mul", "div", "exp", "min", "max"]:
